@@ -20,6 +20,9 @@ import (
 func init() { common.RegisterFlags() }
 
 func ipOf(v uint32) net.IP {
+	if v == 0xFFFFFFFE {
+		return net.ParseIP("::") // the IPv6 wildcard: not an address of these IPv4 hosts
+	}
 	b := make(net.IP, 4)
 	binary.BigEndian.PutUint32(b, v)
 	return b
@@ -158,7 +161,7 @@ func runHost(h *common.History) {
 				case 0:
 					c, err = n.ListenUDP("udp", la0)
 				case 1:
-					c, err = n.ListenPacket("udp", fmt.Sprintf("%s:%d", ip.String(), port))
+					c, err = n.ListenPacket("udp", net.JoinHostPort(ip.String(), fmt.Sprint(port)))
 				default:
 					c, err = n.DialUDP("udp", la0, &net.UDPAddr{IP: net.IPv4(1, 2, 3, 250), Port: 9})
 				}
@@ -336,7 +339,7 @@ func genHost(r *rand.Rand) *common.History {
 		eth = append(eth, 0x01020300+uint32(10+i))
 		h.Conf = append(h.Conf, common.I(eth[i]))
 	}
-	ipChoices := append([]uint32{0, 0, 0x7F000001, 0x01020363 /* foreign */}, eth...)
+	ipChoices := append([]uint32{0, 0, 0x7F000001, 0x01020363 /* foreign */, 0xFFFFFFFE /* :: */}, eth...)
 	ipChoices = append(ipChoices, eth...)
 	ports := []int{0, 0, 80, 80, 81, 5000, 5001, 5999, 6000, 4999}
 	n := 10 + r.IntN(50)
@@ -381,6 +384,9 @@ func genHost(r *rand.Rand) *common.History {
 			h.Ops = append(h.Ops, []string{"2", common.I(r.IntN(nsock))})
 		default:
 			ip := ipChoices[2+r.IntN(len(ipChoices)-2)]
+			if ip == 0xFFFFFFFE {
+				ip = 0x7F000001 // "::" is only a bind address here, never a datagram's destination
+			}
 			port := ports[2+r.IntN(len(ports)-2)]
 			if r.IntN(3) == 0 {
 				port = 5000 + r.IntN(1000)
